@@ -60,6 +60,15 @@ impl ZodBindingsGenerator {
             .map(|field| format!("\"{}\"", escape_for_js(&field.serialized_name)))
             .collect();
 
+        // An enum without listed variants (none declared, or all of them skipped) has no values:
+        // z.enum([]) is rejected by Zod, the uninhabited schema is z.never()
+        if variants.is_empty() {
+            return format!(
+                "export const {0}Schema = z.never();\n\nexport type {0} = z.infer<typeof {0}Schema>;\n\n",
+                name
+            );
+        }
+
         let enum_values = variants.join(", ");
         format!(
             "export const {0}Schema = z.enum([{1}]);\n\nexport type {0} = z.infer<typeof {0}Schema>;\n\n",
